@@ -40,15 +40,25 @@ type ReplayFile struct {
 
 // ReplayOpts are legitimate differences between two nodes that execute the same blocks.
 type ReplayOpts struct {
-	CheckTxFirst bool // CheckTx + Simulate of every transaction before it is delivered
-	RestartEvery int  // restart the node (new application object, same database) every n heights
-	Queries      bool // serve read-only queries between blocks
+	CheckTxFirst   bool // CheckTx + Simulate of every transaction before it is delivered
+	RestartEvery   int  // restart the node (new application object, same database) every n heights
+	Queries        bool // serve read-only queries between blocks
+	SkipInvariants bool // started with --x-crisis-skip-assert-invariants
+	InvCheckPeriod uint // started with --inv-check-period=n
 }
 
 // ReplayLog re-executes a recorded history on a fresh application and returns the digests.
 func ReplayLog(rf ReplayFile) ([]string, error) { return ReplayLogOpts(rf, ReplayOpts{}) }
 
 func ReplayLogOpts(rf ReplayFile, o ReplayOpts) ([]string, error) {
+	if o.SkipInvariants {
+		chain.AppOptions = map[string]interface{}{"x-crisis-skip-assert-invariants": true}
+		defer func() { chain.AppOptions = nil }()
+	}
+	if o.InvCheckPeriod > 0 {
+		chain.InvCheckPeriod = o.InvCheckPeriod
+		defer func() { chain.InvCheckPeriod = 0 }()
+	}
 	n, err := chain.NewNodeFromGenesis(rf.Genesis, rf.GenTime, 1)
 	if err != nil {
 		return nil, err
@@ -163,7 +173,17 @@ func runC11(c *fw.Case) {
 		c.Count("replay_errors", 1)
 	}
 	c11Compare(c, "application that is restarted every few blocks", n.Digests, d4)
-	c.Count("variant_replicas", 2)
+	d5, err := ReplayLogOpts(rf, ReplayOpts{SkipInvariants: true})
+	if err != nil {
+		c.Count("replay_errors", 1)
+	}
+	c11Compare(c, "application started with --x-crisis-skip-assert-invariants", n.Digests, d5)
+	d6, err := ReplayLogOpts(rf, ReplayOpts{InvCheckPeriod: uint(1 + c.R.Intn(3))})
+	if err != nil {
+		c.Count("replay_errors", 1)
+	}
+	c11Compare(c, "application started with --inv-check-period", n.Digests, d6)
+	c.Count("variant_replicas", 4)
 	// (b) separate processes
 	nProc := 1
 	if c.Tier == "thorough" {
